@@ -20,6 +20,7 @@ META = {
         "substituted on both sides."
     ),
 }
+META["explanation"] += ' C06.R3 credits a guard only when its truth follows from the edge taken (boolean structure). C06.R4: per code, the payload columns of Frame._ctx cover those _pkt_idx reads.'
 
 FR = "ramses_tx.frame"
 F = "ramses_tx.protocol_fsm"
